@@ -207,6 +207,23 @@ pub fn job_set() -> Vec<Job> {
         job("nested-asm-error", "nested-asm-error", "failure", 0, 5, 2, 0, 0, &[]),
         job("unknown-symbols", "unknown-symbols", "failure", 0, 5, 0, 0, 3, &[]),
     ];
+    // sibling symbols declared at identical byte ranges of different files (six included modules that all start
+    // with a label of the same length), and locals whose names differ only by the hygiene prefix `__`
+    {
+        let mut j = job("same-offset-symbols", "same-offset-symbols", "success", 0, 5, 0, 0, 0, &[]);
+        let mut main = String::new();
+        for i in 1..=6 {
+            j.files.push((format!("mod{}.asm", i), format!("mod{}:\n    nop\n.in{}:\n    ld {}\n", i, i, i)));
+        }
+        main += &j.files[0].1;
+        main += "#bank code\n";
+        for i in [3, 1, 6, 2, 5, 4] {
+            main += &format!("#include \"mod{}.asm\"\n", i);
+        }
+        main += "#ruledef hyg\n{\n    emitx {__t: u8} => {\n        t = __t + 1\n        asm { ld {t} }\n    }\n}\nemitx 0x10\n";
+        j.files[0].1 = main;
+        v.push(j);
+    }
     // the two format-string jobs: same files as `base`, equally-ranked unknown format parameters
     let mut f1 = job("format-unknown-param-2", "format-unknown-param", "failure", 0, 5, 0, 0, 0, &[]);
     f1.argv = ["main.asm", "-f", "binary,foo:1,bar:2", "-o", "out.txt"].iter().map(|s| s.to_string()).collect();
